@@ -51,7 +51,7 @@ def import_xdoctest():
 # trace injector: asynchronous faults at the k-th in-scope line event
 # ----------------------------------------------------------------------------
 
-PEER_SCOPE = {'op', 'emit', 'emitop', 'emitnoeol', 'abg', 'deco', 'say', 'aop', '_write', 'point', 'names', 'modglobal',
+PEER_SCOPE = {'op', 'emit', 'emitop', 'emitnoeol', 'abg', 'deco', '_emit_text', 'say', 'aop', '_write', 'point', 'names', 'modglobal',
               '__aenter__', '__aexit__', '__anext__', '_raise_via'}
 
 
